@@ -95,6 +95,34 @@ func distSource(r *kernel.Rng, spec *kernel.WorldSpec, cfg DistGenCfg, o distPro
 	g := &genSource{rng: r, nBlocks: r.Range(o.Blocks[0], o.Blocks[1]), Cadence: regularCadence, MaxTxs: 4, PTx: 0.7,
 		TxGens: []TxGen{bankSendGen(senders, recips, true)}}
 	if o.GenMinter {
+		// governance lowers (or raises) the amounts of the running schedule now and then: a period may end up having
+		// minted more than its new total
+		g.TxGens = append(g.TxGens, func(run *kernel.Run, rng *kernel.Rng) *kernel.Tx {
+			if !rng.P(0.35) {
+				return nil
+			}
+			p := cloneMinterParams(run.Chain.MinterParams())
+			for _, m := range p.Minters {
+				switch cfg := m.Config.GetCachedValue().(type) {
+				case *mintertypes.LinearMinting:
+					a := cfg.Amount.QuoRaw(int64(rng.Range(2, 20)))
+					if rng.Intn(4) == 0 {
+						a = cfg.Amount.MulRaw(int64(rng.Range(2, 5)))
+					}
+					any, _ := codectypes.NewAnyWithValue(&mintertypes.LinearMinting{Amount: a})
+					m.Config = any
+				case *mintertypes.ExponentialStepMinting:
+					a := cfg.Amount.QuoRaw(int64(rng.Range(2, 20)))
+					any, _ := codectypes.NewAnyWithValue(&mintertypes.ExponentialStepMinting{Amount: a, AmountMultiplier: cfg.AmountMultiplier, StepDuration: cfg.StepDuration})
+					m.Config = any
+				}
+			}
+			t := msgTx(spec.Clients[0], &mintertypes.MsgUpdateMintersParams{Authority: gov(), StartTime: p.StartTime, Minters: p.Minters}, "direct")
+			if t != nil {
+				t.Note = "gov-changes-amounts"
+			}
+			return t
+		})
 		// short schedules: jumps of minutes to hours cross several period ends in one block; total time stays bounded
 		// (the chain evaluates exponential periods step by step)
 		start := spec.GenesisTime
